@@ -10,6 +10,7 @@
 import ModVerif.Spec.EditSpec
 import ModVerif.Proofs.EditSpecLists
 import ModVerif.Model.Modfile.EditAbs
+import ModVerif.Proofs.EditRefineWork
 namespace ModVerif.Props.C08
 open ModVerif ModVerif.EditSpec ModVerif.Modfile
 
@@ -115,6 +116,93 @@ theorem sortBlocks_replace_last_wins (V : Validity) (f : AbsFile) (r : Repl) (re
     · exact ih
     · exact List.mem_cons_of_mem _ ih
 
+
+
+/-! ### The MODEL of the operations refines the step table (typed lists)
+
+    `Edit.mV` = the validity checks as the Go functions compute them (`GoVersionRE`, `ToolchainRE`,
+    `checkCanonicalVersion`); `Edit.StartOK f` = the starting file is well formed (no directive with an empty key, the
+    exclude / replace / tool entries point at pairwise different lines of the tree); `Edit.ValidArgs op` = non-empty
+    keys, bulk lists with pairwise distinct non-empty paths; `Rel` = equal scalars and lists, except that requirements
+    (uses) are equal PER PATH — the order between different paths depends on Go's map iteration — and retractions are
+    compared by interval (rationales: see the recorded findings below).  Helper lemmas: Proofs/EditRefine*.lean. -/
+
+/-- **refines_abs_typed (go.mod).**  For every session of operations with valid arguments on a well-formed parsed
+    file, for both map-iteration orders of every bulk setter: if the session completes (no Go panic), then the typed
+    lists after the final Cleanup are exactly what the keyed-collection model predicts from the starting file, and
+    each operation succeeds / returns an error exactly when the model says so. -/
+theorem refines_abs_typed (f : File) (ops : List Edit.Op) (e' : Edit.EFile) (res : List Bool) (hs : Edit.StartOK f)
+    (hv : ∀ op ∈ ops, Edit.ValidArgs op) (h : Edit.runOps Edit.applyMod (Edit.load f) ops [] 0 = .done e' res) :
+    Rel (Edit.absOf (Edit.cleanup e').f) (run Edit.mV (Edit.absOf f) (ops.map Edit.Op.toSpec)) ∧
+    res = runOk Edit.mV (Edit.absOf f) (ops.map Edit.Op.toSpec) :=
+  Edit.refines_abs_typed f ops e' res hs hv h
+
+/-- **refines_abs_typed (go.work).** -/
+theorem refines_abs_typed_work (f : WorkFile) (ops : List Edit.Op) (e' : Edit.EWork) (res : List Bool)
+    (hs : Edit.WorkStartOK f) (hv : ∀ op ∈ ops, Edit.ValidArgs op)
+    (h : Edit.runOps Edit.applyWork (Edit.loadWork f) ops [] 0 = .done e' res) :
+    Rel (Edit.absOfWork (Edit.workCleanup e').f) (run Edit.mV (Edit.absOfWork f) (ops.map Edit.Op.toSpec)) ∧
+    res = runOk Edit.mV (Edit.absOfWork f) (ops.map Edit.Op.toSpec) :=
+  Edit.refines_abs_typed_work f ops e' res hs hv h
+
+/-- the same on the observable outcome of a whole `edit.session` (strict parse, operations, Cleanup) -/
+theorem sessionMod_refines (file : Bytes) (ops : List Edit.Op) (o : Edit.Outcome) (f : File)
+    (hf : parseStrict (B "go.mod") file none = .ok f) (hs : Edit.StartOK f) (hv : ∀ op ∈ ops, Edit.ValidArgs op)
+    (h : Edit.sessionMod file ops = some o) :
+    o.start = Edit.absOf f ∧ Rel o.typed (run Edit.mV o.start (ops.map Edit.Op.toSpec)) ∧
+    o.res = runOk Edit.mV o.start (ops.map Edit.Op.toSpec) :=
+  Edit.sessionMod_refines file ops o f hf hs hv h
+
+theorem sessionWork_refines (file : Bytes) (ops : List Edit.Op) (o : Edit.Outcome) (f : WorkFile)
+    (hf : parseWork (B "go.work") file none = .ok f) (hs : Edit.WorkStartOK f) (hv : ∀ op ∈ ops, Edit.ValidArgs op)
+    (h : Edit.sessionWork file ops = some o) :
+    o.start = Edit.absOfWork f ∧ Rel o.typed (run Edit.mV o.start (ops.map Edit.Op.toSpec)) ∧
+    o.res = runOk Edit.mV o.start (ops.map Edit.Op.toSpec) :=
+  Edit.sessionWork_refines file ops o f hf hs hv h
+
+/-- what `Rel` means for an observer: every collection is the same multiset (retractions: of intervals), the scalars
+    are equal — the "≈" of lean/PENDING.md, and more (order is preserved except between requirements / uses of
+    different paths) -/
+theorem Rel_observable {f g : AbsFile} (h : Rel f g) :
+    f.module = g.module ∧ f.go = g.go ∧ f.toolchain = g.toolchain ∧ f.godebug = g.godebug ∧ f.require.Perm g.require ∧
+    f.exclude = g.exclude ∧ f.replace = g.replace ∧ f.retract.map Retr.interval = g.retract.map Retr.interval ∧
+    f.tool = g.tool ∧ f.use.Perm g.use :=
+  ⟨h.module, h.go, h.toolchain, h.godebug, h.require.perm, h.exclude, h.replace, h.retract, h.tool, h.use.perm⟩
+
+/-- one operation of the model = one step of the table (the per-operation refinement lemma): success ⇒ `stepOk` and
+    the specified new state; a returned error ⇒ `stepOk` is false -/
+theorem applyMod_refines_step (e : Edit.EFile) (op : Edit.Op) (hv : Edit.ValidArgs op) (hi : Edit.TInv e) :
+    (∀ e', Edit.applyMod e op = some (.ok e') →
+      stepOk Edit.mV (Edit.absOf (Edit.cleanup e).f) op.toSpec = true ∧
+      Rel (Edit.absOf (Edit.cleanup e').f) (step Edit.mV (Edit.absOf (Edit.cleanup e).f) op.toSpec) ∧ Edit.TInv e') ∧
+    (∀ err, Edit.applyMod e op = some (.error err) → err.isReturned = true →
+      stepOk Edit.mV (Edit.absOf (Edit.cleanup e).f) op.toSpec = false) :=
+  Edit.applyMod_refines e op hv hi
+
+/-- non-vacuity of `refines_abs_typed` / `sessionMod_refines`: a concrete well-formed file and a valid session
+    (duplicates, deferred removals, a bulk setter in reversed map order, a retraction, a tool) that completes -/
+example : (match parseStrict (B "go.mod") (B "module example.com/m\n\ngo 1.21\n\nrequire (\n\texample.com/a v1.0.0 // indirect\n\texample.com/b v1.2.3\n\texample.com/a v1.1.0\n)\n\nexclude example.com/b v1.0.0\n\nreplace example.com/a v1.0.0 => ../a\n\ntool example.com/t\n") none with
+    | .ok f =>
+      let ops : List Edit.Op := [.addRequire (B "example.com/a") (B "v1.5.0"), .addExclude (B "example.com/b") (B "v1.0.0"),
+        .dropRequire (B "example.com/b"), .cleanup,
+        .setRequire [⟨B "example.com/e", B "v1.0.0", true⟩, ⟨B "example.com/a", B "v1.9.0", false⟩] true,
+        .addRetract (B "v1.0.0") (B "v1.0.0") (B "bad"), .addTool (B "example.com/u")]
+      Edit.startOKb f && ops.all Edit.validArgsB &&
+        (match Edit.runOps Edit.applyMod (Edit.load f) ops [] 0 with
+         | .done _ res => res.all id
+         | _ => false)
+    | .error _ => false) = true := by decide +kernel
+
+/-- non-vacuity, go.work -/
+example : (match parseWork (B "go.work") (B "go 1.21\n\nuse (\n\t./a\n\t./b\n)\n\nreplace example.com/a => ../a\n") none with
+    | .ok f =>
+      let ops : List Edit.Op := [.addUse (B "./c") [], .dropUse (B "./a"), .cleanup, .setUse [(B "./b", []), (B "./d", [])] true,
+        .addReplace (B "example.com/a") [] (B "../b") []]
+      Edit.workStartOKb f && ops.all Edit.validArgsB &&
+        (match Edit.runOps Edit.applyWork (Edit.loadWork f) ops [] 0 with
+         | .done _ res => res.all id
+         | _ => false)
+    | .error _ => false) = true := by decide +kernel
 
 /-! ### Recorded findings (known_findings.json), C08 side: the keyed-collection prediction
     `run stdValidity start ops` and the strict re-parse of the model's output differ in a retraction's
